@@ -229,13 +229,15 @@ Definition calc_pns (lp : Q -> nat -> list Q -> list Q) (gamma dt : Q) (hx hy hz
 (* safe_tau_lowpass:282  n = min(round(np.log(eps) / np.log(1 - alpha)), N).  np.log is outside the
    model; n is characterised by a rational bracket instead.  With x = log eps / log r (r = 1-alpha,
    so r^x = eps) and |round(x) - x| <= 1/2:  r^(n0+1) <= eps <= r^(n0-1) for n0 = round(x); the code
-   then takes n = min(n0, N) (N = length of the padded slew-rate vector).  [tap_count_ok] is this
-   decidable condition; the harness evaluates it on the implementation's n for every case. *)
+   then takes n = min(n0, N) (N = length of the padded slew-rate vector).  [tap_count_ok] is the
+   decidable half of it that the error bound needs; the harness evaluates it on the implementation's n for every case. *)
 Definition tap_count_ok (n N : nat) (alpha eps : Q) : bool :=
   let r := 1 - alpha in
-  Nat.leb 1 n && Nat.leb n N &&
-  Qle_bool eps (Qpower r (Z.of_nat (n - 1))) &&
-  (Nat.eqb n N || Qle_bool (Qpower r (Z.of_nat (S n))) eps).
+  Nat.leb 1 n && Nat.leb n N && (Nat.eqb n N || Qle_bool (Qpower r (Z.of_nat (S n))) eps).
+(* the other side of the bracket (the code does not use more taps than the accuracy asks for); not
+   needed by any bound, reported by the harness only *)
+Definition tap_count_tight (n : nat) (alpha eps : Q) : bool :=
+  Qle_bool eps (Qpower (1 - alpha) (Z.of_nat (n - 1))).
 
 Fixpoint taps_ok (h : hwax) (dtms : Q) (bs : list branch) (taps : list nat) (N : nat) : bool :=
   match bs with
